@@ -115,6 +115,10 @@ type c05Case struct {
 	Cfg  c05Cfg   `json:"config"`
 	Dom  []c05Dom `json:"domains"`
 	Hist []c05Msg `json:"history"`
+	// Resolver: "" = one loopback resolver; "fallback-non-loopback" = the configured loopback
+	// resolver does not answer and the DNSSEC-aware answers come from a second server that
+	// is not on this host: whatever AD flag it sets, nothing is DNSSEC-authenticated
+	Resolver string `json:"resolver,omitempty"`
 }
 
 func c05Host(d, m int) string { return fmt.Sprintf("mx%d.d%d.example", m+1, d+1) }
@@ -424,6 +428,21 @@ func c05Run(c c05Case) (fp, detail string, out string) {
 	}
 	addr := srv.LocalAddr().(*net.UDPAddr)
 	ext := maddydns.VerifExtResolver(addr.IP.String(), strconv.Itoa(addr.Port))
+	oc := c // the facts as the oracle sees them
+	if c.Resolver == "fallback-non-loopback" {
+		// 127.0.0.2:<port> has no listener; 0.0.0.0 reaches the server on this host and is not loopback
+		ext = maddydns.VerifExtResolverServers([]string{"127.0.0.2", "0.0.0.0"}, strconv.Itoa(addr.Port))
+		oc.Dom = nil
+		for _, d := range c.Dom {
+			d.MXAD = false
+			mxs := append([]c05MX{}, d.MX...)
+			for i := range mxs {
+				mxs[i].AD = false
+			}
+			d.MX = mxs
+			oc.Dom = append(oc.Dom, d)
+		}
+	}
 	relCh := make(chan struct{})
 	var relOnce sync.Once
 	c05Release = func() { relOnce.Do(func() { close(relCh) }) }
@@ -527,7 +546,7 @@ func c05Run(c c05Case) (fp, detail string, out string) {
 		}
 		di, mi = di-1, mi-1
 		m := c.Hist[k]
-		need := c05Need(c.Cfg, m.Flag, c.Dom[di], c.Dom[di].MX[mi], t.TLS, t.MailOpts.RequireTLS)
+		need := c05Need(c.Cfg, m.Flag, oc.Dom[di], oc.Dom[di].MX[mi], t.TLS, t.MailOpts.RequireTLS)
 		o := fmt.Sprintf("m%d->%s tls=%v", k, t.Host, t.TLS)
 		if reused {
 			o += " pooled"
@@ -551,7 +570,7 @@ func c05Run(c c05Case) (fp, detail string, out string) {
 		}
 		inForce := !(m.Flag == "notls" && c.Cfg.Override)
 		for _, r := range results[k] {
-			d := c.Dom[r.Dom]
+			d := oc.Dom[r.Dom]
 			why := ""
 			if d.MXFail {
 				why = "mx-lookup-servfail"
@@ -638,7 +657,7 @@ func c05IsCanon(c c05Case) bool {
 
 // c05Normalise gives unobservable facts their default value.
 func c05Normalise(c c05Case) c05Case {
-	n := c05Case{Cfg: c.Cfg, Hist: c.Hist}
+	n := c05Case{Cfg: c.Cfg, Hist: c.Hist, Resolver: c.Resolver}
 	anyReq, anyNo := false, false
 	for _, m := range c.Hist {
 		anyReq = anyReq || m.Flag == "requiretls"
@@ -730,7 +749,7 @@ func TestVerifC05(t *testing.T) {
 	log.DefaultLogger.Out = log.NopOutput{}
 	r := vx.Start("C05", "remote")
 	defer r.Finish()
-	r.Rule("real remote target (New+Init from configuration text; real mx_auth group with mtasts cache, dane, dnssec, local_policy; real pool and smtpconn) delivering histories of 1-3 messages to scripted MX servers; families: (A) one message, one MX: configurations {mtasts,dane,dnssec} x local_policy {absent, 3 TLS levels x 3 MX levels} x requiretls_override x relaxed_requiretls, message flag {none, REQUIRETLS, TLS-Required: No, quarantined}, MTA-STS {none, testing, enforce} x MX listed, MX RRset AD on/off, STARTTLS {not offered, valid, self-signed, wrong name, handshake failing}, TLSA {none, EE match, TA match, mismatch, unusable, SERVFAIL} x address AD on/off, REQUIRETLS offered or not, MX lookup SERVFAIL; (G) the same for an MX host name that is a CNAME (TLSA facts at the canonical name, dane policy on); (Q) messages quarantined after the recipients were accepted, on the atomic and the per-recipient body path; (B) two MX candidates; (C) histories of 2-3 messages to one domain sharing the pool; (D) messages to two domains. Oracle: for every transaction in which a server received message content, the requirements of the statement computed from the facts and the TLS state seen by the server; discovery failures must yield temporary errors. Quick tier explores only cases whose irrelevant facts are canonical. Non-trivial: distinct cases in which some policy is in force and content was either transmitted or refused")
+	r.Rule("real remote target (New+Init from configuration text; real mx_auth group with mtasts cache, dane, dnssec, local_policy; real pool and smtpconn) delivering histories of 1-3 messages to scripted MX servers; families: (A) one message, one MX: configurations {mtasts,dane,dnssec} x local_policy {absent, 3 TLS levels x 3 MX levels} x requiretls_override x relaxed_requiretls, message flag {none, REQUIRETLS, TLS-Required: No, quarantined}, MTA-STS {none, testing, enforce} x MX listed, MX RRset AD on/off, STARTTLS {not offered, valid, self-signed, wrong name, handshake failing}, TLSA {none, EE match, TA match, mismatch, unusable, SERVFAIL} x address AD on/off, REQUIRETLS offered or not, MX lookup SERVFAIL; (G) the same for an MX host name that is a CNAME (TLSA facts at the canonical name, dane policy on); (Q) messages quarantined after the recipients were accepted, on the atomic and the per-recipient body path; (B) two MX candidates; (C) histories of 2-3 messages to one domain sharing the pool; (D) messages to two domains; (R) the DNSSEC-aware answers (AD set) come from a resolver that is not on this host while the loopback one does not answer: nothing is DNSSEC-authenticated. Oracle: for every transaction in which a server received message content, the requirements of the statement computed from the facts and the TLS state seen by the server; discovery failures must yield temporary errors. Quick tier explores only cases whose irrelevant facts are canonical. Non-trivial: distinct cases in which some policy is in force and content was either transmitted or refused")
 	if rp := r.Replay(); rp != nil {
 		var c c05Case
 		if json.Unmarshal(rp, &c) != nil {
@@ -975,6 +994,26 @@ func TestVerifC05(t *testing.T) {
 						}
 					}
 				}
+			}
+		}
+	}
+	// (R) the DNSSEC-aware answers come from a resolver that is not on this host
+	family = "R"
+	for _, cfg := range []c05Cfg{
+		{DNSSEC: true, Local: "none/dnssec", Override: true},
+		{DNSSEC: true, Override: true},
+		{DANE: true, Override: true},
+		{MTASTS: true, DANE: true, DNSSEC: true, Local: "authenticated/dnssec", Override: true},
+	} {
+		for _, f := range []string{"", "requiretls"} {
+			for _, mx := range []c05MX{
+				{TLS: "valid", TLSA: "none", AD: true, Ext: true},
+				{TLS: "valid", TLSA: "ee", AD: true, Ext: true},
+				{TLS: "", TLSA: "ee", AD: true},
+				{TLS: "selfsigned", TLSA: "ee", AD: true, Ext: true},
+				{TLS: "selfsigned", TLSA: "mismatch", AD: true, Ext: true},
+			} {
+				emit(c05Case{Cfg: cfg, Dom: []c05Dom{{MXAD: true, MX: []c05MX{mx}}}, Hist: []c05Msg{{Flag: f, Doms: []int{0}}}, Resolver: "fallback-non-loopback"})
 			}
 		}
 	}
